@@ -53,7 +53,7 @@ for depth in (0, 1, 2):
             w = dict(depth=depth, attempt=attempt, observed=f"failing task executed {counter['n'] - before} times in this execution (expected 1: failures are never replayed from the backend cache)")
             break
         jobs = s.backend.session.query(DbJob).all()
-        exec_id = s._current_execution.id
+        exec_id = max(jobs, key=lambda j: j.start_time).execution_id
         statuses = {j.task.fullname: j.status for j in jobs if j.execution_id == exec_id}
         bad = {k: v for k, v in statuses.items() if k.split(".")[-1] in ("boom", "mid", "top") and v != "FAILED"}
         if bad:
